@@ -56,8 +56,8 @@ def generate(T, tier):
     return {
         "harnesses": hs,
         "groups": {"main": {"features": ["c01"], "timeout_s": 2400},
-                   "msm": {"features": ["c01"], "timeout_s": 3000},
-                   "big": {"features": ["c01"], "timeout_s": 3000, "unwindset": [["try_from_fn_erased", 392]]},
+                   "msm": {"features": ["c01"], "est_gb": 6, "timeout_s": 3000},
+                   "big": {"features": ["c01"], "est_gb": 10, "timeout_s": 3000, "unwindset": [["try_from_fn_erased", 392]]},
                    "stub": {"features": ["c01"], "timeout_s": 2400, "unwindset": [["try_from_fn_erased", 392]], "kani_args": ["-Z", "stubbing"]}},
         "level": "model_checking",
         "functions": ["msgNNNN::{encode,decode} for all %d message types and every fragment/field codec they call" % len(T.messages)],
